@@ -17,7 +17,7 @@ FORMULAS = {
     # C08 promises a returned state: a panic from a valid input is a violation of it as well
     "C08": {"inv": ["C08Range", "C08Exact", "C08Done", "C20NoPanic"], "props": ["C08"], "mc_props": ["C08"],
             "mc_inv": ["C08Range", "C08Done", "C20NoPanic"]},
-    "C18": {"inv": ["C18Finish"], "props": ["C18", "C18Zero"], "mc_props": ["C18", "C18Zero"], "mc_inv": ["C18Finish"]},
+    "C18": {"inv": ["C18Finish"], "props": ["C18", "C18Zero", "C18Governs"], "mc_props": ["C18", "C18Zero", "C18Governs"], "mc_inv": ["C18Finish"]},
     "C19": {"inv": ["C19Cap", "C19Rel"], "props": ["C19"], "mc_props": ["C19"], "mc_inv": ["C19Cap"]},
     "C20": {"inv": ["C20NoPanic", "C20Work"], "props": ["C20Conv", "C20Prefix"],
             "mc_props": ["C20Conv", "C20Terminates"], "mc_inv": ["C20NoPanic", "C20Work"]},
